@@ -58,6 +58,8 @@ def instances(tier):
                 if where == "data" and n == 0:
                     continue
                 out.append({"kind": "rx", "gen": g, "payload": n, "where": where})
+        # history: damaged frames again and again (one per connection): each is rejected, each time the connection comes back
+        out.append({"kind": "rx_repeat", "gen": g, "count": 6 if tier == "quick" else 12})
         for where in ("addr", "data", "crc"):
             # history: the intact frame is received first, its damaged copy right behind it
             out.append({"kind": "rx", "gen": g, "payload": 2, "where": where, "after_good": True})
@@ -127,6 +129,8 @@ def run(ctx, p):
         ctx.check(raised, "validate.badlen_raises")
     elif kind == "rx":
         _run_rx(ctx, p)
+    elif kind == "rx_repeat":
+        _run_rx_repeat(ctx, p)
     else:
         raise ValueError(kind)
 
@@ -158,6 +162,34 @@ class _SpyCalc:
         r = self.real.validate(buffer, checksum)
         self.calls.append((buffer, checksum, r))
         return r
+
+
+def _run_rx_repeat(ctx, p):
+    g = Gen(p["gen"])
+    k = p["count"]
+    good = framing.frame(g.n, 0xB0, 0x80, 3, 0x77, [1, 2])
+    e = ctx.byte("e")
+    ctx.assume(e != 0)
+    bad = list(good[:-1]) + [good[-1] ^ e]          # the same damaged frame (free non-zero error in the last check byte) every time
+    probe = framing.frame(g.n, 0xB0, 0x80, 9, 0x78, [1, 2, 3])
+    with Rig(ctx, g) as rig:
+        def on_accept(conn):
+            if conn.index < k:
+                conn.send(SymBytes(bad) if ctx.symbolic else bytes(bad))
+            else:
+                conn.send(bytes(probe))
+        rig.net.on_accept = on_accept
+        rig.spawn(rig.sock.open_socket())
+        rig.loop.vt_run(2.5 * k + 10.25)
+        got_first = [m for (_, h, m) in rig.received if getattr(m, "unsupported_id", None) != 0x78]
+        got_probe = [m for (_, h, m) in rig.received if getattr(m, "unsupported_id", None) == 0x78]
+        ctx.observe("conns", len(rig.net.conns))
+        ctx.check(got_first == [], "rx.delivered_implies_reference_accepts", detail="a damaged frame was delivered")
+        ok = len(rig.net.conns) == k + 1 and all(c.client_closed for c in rig.net.conns[:k]) and len(got_probe) == 1 and rig.net.max_open <= 1
+        ctx.check(ok, "rx.reject_resets_and_recovers", detail={"damaged_frames": k, "conns": len(rig.net.conns), "probe": len(got_probe)})
+        ctx.check(not rig.task_failures(), "rx.reject_resets_and_recovers", detail="unhandled exception in a socket task")
+    for lab in ("rx.validate_span",):
+        ctx.reach(lab)
 
 
 def _run_rx(ctx, p):
